@@ -211,3 +211,68 @@ def bounded_checks(tier, seed):
     return [{"check": "edit_scripts", "tool": "fixture package (re-exports via __all__, wildcard, private modules, inheritance through a private base) x catalogue of compatible and "
              "incompatible edits; real loader + find_breaking_changes", "bound": "24 two-version histories + cyclic re-export", "cases": d["cases"], "failing": len(d["bad"]),
              "wall_s": round(time.time() - t0, 1), "violations": d["bad"]}]
+
+
+@contract("C11", "cli.check.exit_code", ["_griffe.cli:check"], floor=3, replay="replay_edit_scripts")
+def c_cli_check(P):
+    """`griffe check` exits 1 exactly when find_breaking_changes reports something (0 otherwise), 2 when the reference to compare with cannot be determined,
+    and compares the package loaded from the reference with the current one (or with the one at --base-ref)."""
+    calls = []
+    nb = P.fresh_int("n_breakages")
+    P.assume(nb.z >= 0)
+    breakages = SSeq(nb, lambda i: SObj("Breakage", {}, ident=z3.Function("BREAKAGE", IntS, IntS)(zint(i)), frozen=True), tag="breakages")
+    P.attr_hooks[("Breakage", "explain")] = lambda P_, o: BoundMethod(o, lambda P__, s_, a, k: P__.fresh_str("explanation"))
+    tag_fails = z3.Bool("no_latest_tag")
+    ext_fails = z3.Bool("extensions_fail")
+
+    def latest_tag(P_, a, k):
+        if P_.branch(tag_fails):
+            raise PyExc(SObj("GitError", {"args": ("no tag",)}))
+        return P_.fresh_str("latest_tag")
+    P.opaque_hooks["_griffe.cli:get_latest_tag"] = latest_tag
+    P.opaque_hooks["_griffe.cli:get_repo_root"] = lambda P_, a, k: P_.fresh_str("repo_root")
+
+    def load_ext(P_, a, k):
+        if P_.branch(ext_fails):
+            raise PyExc(SObj("ExtensionError", {"args": ("bad",)}))
+        return Opaque("extensions")
+    P.opaque_hooks["_griffe.cli:load_extensions"] = load_ext
+    old_pkg, new_git, new_cur = Opaque("old_package", z3.IntVal(1)), Opaque("new_package_at_base_ref", z3.IntVal(2)), Opaque("new_package_current", z3.IntVal(3))
+
+    def load_git(P_, a, k):
+        calls.append(("load_git", k.get("ref"), k.get("resolve_aliases")))
+        return old_pkg if len([c for c in calls if c[0] == "load_git"]) == 1 else new_git
+    P.opaque_hooks["_griffe.cli:load_git"] = load_git
+    P.opaque_hooks["_griffe.cli:load"] = lambda P_, a, k: (calls.append(("load", None, k.get("resolve_aliases"))), new_cur)[1]
+
+    def fbc(P_, a, k):
+        calls.append(("compare", a[0], a[1]))
+        return breakages
+    P.opaque_hooks["_griffe.cli:find_breaking_changes"] = fbc
+    gv = P.ghost.setdefault("global_values", {})
+    gv["_griffe.cli:colorama"] = Opaque("lenient:colorama")
+    gv["_griffe.cli:logger"] = Opaque("lenient:logger")
+    P.opaque_hooks["os.getenv"] = lambda P_, a, k: opt(P_, "force_color", lambda: P_.fresh_str("force_color_value"))
+    P.opaque_hooks["builtin:print"] = lambda P_, a, k: None
+    i0 = z3.Int("i_breakage")
+    P.loop_specs[("_griffe.cli:check", 0)] = dict(mode="generic", index=i0)
+    against = opt(P, "against", lambda: P.fresh_str("against_ref"))
+    base_ref = opt(P, "base_ref", lambda: P.fresh_str("base_ref_value"))
+    color = SUnion([(z3.Bool("color_none"), None), (z3.Not(z3.Bool("color_none")), P.fresh_bool("color_value"))])
+    style = None
+    kind, res = outcome(P, lambda: call(P, "_griffe.cli:check", P.fresh_str("package"), against, None, base_ref=base_ref, color=color, verbose=P.fresh_bool("verbose"),
+                                        style=style, append_sys_path=False, search_paths=None, extensions=None))
+    if kind == "raise":
+        P.prove("never_raises", False, exc=P.resolve_cls(res))
+        return
+    cmp_ = [c for c in calls if c[0] == "compare"]
+    if not cmp_:
+        P.prove("exit_2_without_a_reference_and_1_without_extensions", z3.Or(zint(res) == 2, zint(res) == 1))
+        P.prove("nothing_is_compared_only_when_a_prerequisite_failed", z3.Or(z3.And(z3.Or(against.alts[0][0], z3.Length(zstr(against.alts[1][1])) == 0), tag_fails), ext_fails))
+        P.cover("cli.check.early")
+        return
+    P.prove("exit_1_exactly_when_something_is_reported", zint(res) == z3.If(nb.z > 0, 1, 0))
+    P.prove("compares_the_reference_with_the_current_package", len(cmp_) == 1 and cmp_[0][1] is old_pkg and (cmp_[0][2] is new_git or cmp_[0][2] is new_cur))
+    P.prove("base_ref_selects_the_new_side", (cmp_[0][2] is new_git) == (len([c for c in calls if c[0] == "load_git"]) == 2))
+    P.prove("both_sides_are_loaded_with_aliases_resolved", all(c[2] is True for c in calls if c[0] in ("load_git", "load")))
+    P.cover("cli.check.compared")
